@@ -104,6 +104,7 @@ struct St {
     nested_plan: Vec<(u64, FaultKind)>,
     nested_ev: u64,
     nested_active: Option<usize>,
+    fail_next: Option<i32>,
 }
 
 pub struct SimDisk {
@@ -142,7 +143,8 @@ fn sparse_copy(src: &Path, dst: &Path) -> std::io::Result<()> {
 pub fn copy_dir(src: &Path, dst: &Path) {
     let _ = fs::remove_dir_all(dst);
     fs::create_dir_all(dst).unwrap();
-    for e in fs::read_dir(src).unwrap() {
+    let Ok(rd) = fs::read_dir(src) else { return };
+    for e in rd {
         let e = e.unwrap();
         if e.file_type().unwrap().is_file() { sparse_copy(&e.path(), &dst.join(e.file_name())).unwrap(); }
     }
@@ -179,7 +181,7 @@ impl SimDisk {
                 dirs: Vec::new(), step: 0, ev_in_step: 0, seq: 0, faults, persistent_fail: None, images: Vec::new(), knobs,
                 probes: BTreeMap::new(), fired: BTreeMap::new(), kinds: BTreeMap::new(), sig: 0, trace: Vec::new(), keep_trace,
                 enabled: true, img_counter: 0, reads: 0, delivered_errors: Vec::new(), adopt_level: 0,
-                nested_plan: Vec::new(), nested_ev: 0, nested_active: None,
+                nested_plan: Vec::new(), nested_ev: 0, nested_active: None, fail_next: None,
             }),
             scratch,
             yield_on_events,
@@ -204,9 +206,12 @@ impl SimDisk {
             let _ = fs::remove_dir_all(&d.durable);
         }
     }
+    pub fn seq_now(&self) -> u64 { self.st.lock().unwrap().seq }
+    /// The next mutating operation on a top-level directory fails with `errno` (one shot).
+    pub fn arm_fail_next(&self, errno: i32) { self.st.lock().unwrap().fail_next = Some(errno); }
     pub fn begin_step(&self, step: usize) { let mut st = self.st.lock().unwrap(); st.step = step; st.ev_in_step = 0; }
     pub fn set_enabled(&self, on: bool) { self.st.lock().unwrap().enabled = on; }
-    pub fn clear_persistent_fail(&self) { let mut st = self.st.lock().unwrap(); st.persistent_fail = None; st.faults.clear(); }
+    pub fn clear_persistent_fail(&self) { let mut st = self.st.lock().unwrap(); st.persistent_fail = None; st.fail_next = None; st.faults.clear(); }
     pub fn events_in_step(&self) -> u64 { self.st.lock().unwrap().ev_in_step }
     pub fn take_images(&self) -> Vec<ImageRec> { std::mem::take(&mut self.st.lock().unwrap().images) }
     pub fn delivered_errors(&self) -> Vec<(usize, String)> { self.st.lock().unwrap().delivered_errors.clone() }
@@ -433,6 +438,7 @@ impl Observer for SimDisk {
                     }
                 }
                 if verdict == Verdict::Proceed { if let Some(e) = st.persistent_fail { verdict = Verdict::Fail(e); } }
+                if verdict == Verdict::Proceed { if let Some(e) = st.fail_next.take() { verdict = Verdict::Fail(e); } }
             } else if st.nested_active == Some(level) {
                 let nev = st.nested_ev;
                 let matching: Vec<FaultKind> = st.nested_plan.iter().filter(|(e, _)| *e == nev).map(|(_, k)| k.clone()).collect();
